@@ -93,6 +93,36 @@ static void check_fp_type(const char* tn)
     verdict(std::is_same<xs::simd_return_type<bool, T, A>, xs::batch_bool<T, A>>::value, p + "simd_return_type<bool,T>");
 }
 
+// traits of complex batches name types of matching width: the scalar type is the complex type (two registers = size complex values),
+// the mask type is the batch_bool of the real type, value_type/real_batch agree
+template <class T, class A>
+static void check_complex_traits(const char* tn)
+{
+    using C = std::complex<T>;
+    using BC = xs::batch<C, A>;
+    const std::string p = std::string(A::name()) + "/" + tn + ": ";
+    verdict(std::is_same<xs::scalar_type_t<BC>, C>::value && std::is_same<xs::scalar_type_t<C>, C>::value, p + "scalar_type_t of a complex batch is the complex type");
+    verdict(sizeof(xs::scalar_type_t<BC>) * BC::size == sizeof(BC) && sizeof(BC) == 2 * reg_bits<A>() / 8, p + "sizeof(scalar_type_t) * size == sizeof(batch) == two registers");
+    verdict(std::is_same<xs::mask_type_t<BC>, xs::batch_bool<T, A>>::value, p + "mask_type_t of a complex batch is batch_bool of the real type");
+    verdict(std::is_same<typename BC::value_type, C>::value && std::is_same<typename BC::real_batch, xs::batch<T, A>>::value && std::is_same<typename BC::batch_bool_type, xs::batch_bool<T, A>>::value, p + "value_type / real_batch / batch_bool_type of a complex batch");
+    verdict(xs::is_batch<BC>::value && xs::is_batch_complex<BC>::value && !xs::is_batch_complex<xs::batch<T, A>>::value, p + "is_batch / is_batch_complex");
+    // a store of a complex batch writes size complex values = sizeof(scalar_type_t) * size bytes, no more
+    {
+        C buf[BC::size + 2];
+        for (size_t i = 0; i < BC::size + 2; ++i)
+            buf[i] = C(T(-7), T(-9));
+        C src[BC::size];
+        for (size_t i = 0; i < BC::size; ++i)
+            src[i] = C(T(i + 1), T(100 + i));
+        BC v = BC::load_unaligned(src);
+        v.store_unaligned(buf + 1);
+        bool ok = buf[0] == C(T(-7), T(-9)) && buf[BC::size + 1] == C(T(-7), T(-9));
+        for (size_t i = 0; i < BC::size; ++i)
+            ok = ok && buf[1 + i] == src[i];
+        verdict(ok, p + "store_unaligned of a complex batch writes exactly size scalar_type values");
+    }
+}
+
 // simd_return_type<T1, T2, A> names the batch of the destination type T2 (for every source type T1)
 template <class T1, class T2, class A>
 static void check_srt(const char* n1, const char* n2)
@@ -151,6 +181,21 @@ static void check_arch()
     check_type<double, A>("f64");
     check_fp_type<float, A>("f32");
     check_fp_type<double, A>("f64");
+    // the fundamental types the register tables name one by one and that no <cstdint> alias reaches on LP64
+    // (long long vs long, plain char): every one of them must be a full-width batch as well
+    check_type<char, A>("char");
+    check_type<signed char, A>("signed char");
+    check_type<unsigned char, A>("unsigned char");
+    check_type<short, A>("short");
+    check_type<unsigned short, A>("unsigned short");
+    check_type<int, A>("int");
+    check_type<unsigned int, A>("unsigned int");
+    check_type<long, A>("long");
+    check_type<unsigned long, A>("unsigned long");
+    check_type<long long, A>("long long");
+    check_type<unsigned long long, A>("unsigned long long");
+    check_complex_traits<float, A>("c32");
+    check_complex_traits<double, A>("c64");
 }
 
 template <class... A>
